@@ -87,12 +87,18 @@ def alphabets():
 def c_tables():
     src = os.path.join(REPO, "peppercompiler", "SpuriousDesign", "spuriousSSM.c")
     os.makedirs(BUILD, exist_ok=True)
-    exe = os.path.join(BUILD, "c_tables")
+    exe = os.path.join(BUILD, "c_tables-%d" % os.getpid())     # per process: concurrent checks must not overwrite a running binary
     cmd = ["gcc", "-O1", "-w", '-DSSM_SOURCE="%s"' % src, os.path.join(HERE, "c_tables.c"), "-o", exe, "-lm"]
     p = subprocess.run(cmd, capture_output=True, text=True)
     if p.returncode != 0:
         raise ExtractError("spuriousSSM.c does not compile for table extraction:\n" + p.stderr[-2000:])
-    p = subprocess.run([exe], capture_output=True, text=True, timeout=120)
+    try:
+        p = subprocess.run([exe], capture_output=True, text=True, timeout=120)
+    finally:
+        try:
+            os.remove(exe)
+        except OSError:
+            pass
     if p.returncode != 0:
         raise ExtractError("c_tables failed: " + p.stderr[-2000:])
     return json.loads(p.stdout)
